@@ -34,7 +34,7 @@ impl GenE {
         match c {
             0 => self.rng.range(-50, 500).to_string(),
             1 => format!("'{}", self.rng.pick(&["foo", "bar", "a-b", "x1"])),
-            2 => format!("\"{}\"", self.rng.pick(&["hello", "two words", "", "semi;colon", "par(en"])),
+            2 => format!("\"{}\"", self.rng.pick(&["hello", "two words", "", "semi;colon", "par(en", "line one\\nline two", "tab\\there", "quote\\\"inside"])),
             3 => format!("#\\{}", self.rng.pick(&["a", "Z", "7"])),
             4 => (if self.rng.chance(1, 2) { "#t" } else { "#f" }).to_string(),
             5 => format!("(+ {} {})", self.rng.range(0, 20), self.rng.range(0, 20)),
@@ -130,7 +130,7 @@ fn generate_e(seed: u64, quick: bool) -> Value {
         count += 1;
         if Some(count) == fault_at {
             // one injected failing form
-            let c = g.rng.upto(16);
+            let c = g.rng.upto(18);
             let pre = g.marker();
             let item = match c {
                 0 => json!({"forms": ["(car 5)"], "markers_before_failure": [], "kind": "fault-type"}),
@@ -148,6 +148,8 @@ fn generate_e(seed: u64, quick: bool) -> Value {
                 12 => json!({"forms": ["#<"], "markers_before_failure": [], "kind": "syntax-token"}),
                 13 => json!({"forms": ["(display \"unterminated)"], "markers_before_failure": [], "kind": "syntax-unterminated-string"}),
                 14 => json!({"forms": ["(import (lib missing))"], "markers_before_failure": [], "kind": "late-or-failing-import"}),
+                16 => json!({"forms": ["(define doomed (car 5))"], "markers_before_failure": [], "kind": "fault-in-definition-initialiser"}),
+                17 => json!({"forms": [format!("(define (show-then-fail) (display \"<<{}>>\") (apply car '(1 2)))", pre), "(define doomed2 (show-then-fail))".to_string()], "markers_before_failure": [pre], "kind": "fault-in-definition-through-apply"}),
                 _ => json!({"forms": [format!("(display \"<<{}>>\")", pre), "(vector-set! #(1 2) 0 1)".to_string()], "markers_before_failure": [pre], "kind": "fault-immutable"}),
             };
             let mut item = item;
